@@ -9,9 +9,11 @@ import (
 	"fmt"
 	"io/ioutil"
 	"os"
+	"regexp"
 	"runtime/debug"
 	"strings"
 	"testing"
+	"time"
 
 	"pgregory.net/rapid"
 	"verif.local/vstats"
@@ -40,7 +42,28 @@ type Prop struct {
 	Run  func(c interface{}, k *vstats.Case) error
 }
 
-func safeRun(p Prop, c interface{}, k *vstats.Case) (err error) {
+// timeBudget recognises verdicts that rest on a time budget alone ("X did not return within N s"). A budget
+// that ran out says the machine or the code was slow; only a second run of the same case that ends the same
+// way makes it a verdict (a hang of the code under test comes back every time).
+var timeBudget = regexp.MustCompile(`(?i)watchdog|did not return within|\(hang\)`)
+
+func safeRun(p Prop, c interface{}, k *vstats.Case) error {
+	err := safeRunOnce(p, c, k)
+	if err == nil {
+		return nil
+	}
+	if _, known := err.(*KnownErr); known || !timeBudget.MatchString(strings.SplitN(err.Error(), "\n", 2)[0]) || strings.HasPrefix(err.Error(), "panic:") {
+		return err
+	}
+	time.Sleep(time.Second)
+	err2 := safeRunOnce(p, c, k)
+	if err2 == nil {
+		k.Class("time budget ran out once, a second run of the case passed (counted, not judged)")
+	}
+	return err2
+}
+
+func safeRunOnce(p Prop, c interface{}, k *vstats.Case) (err error) {
 	defer func() {
 		if r := recover(); r != nil {
 			// rapid accepts a shrink step only if re-running it fails with the very same message:
